@@ -822,6 +822,10 @@ func (rw *rewriter) selectStmt(sel *ast.SelectStmt) ast.Stmt {
 	}
 	if hasDef {
 		clauses = append(clauses, &ast.CaseClause{Body: defBody})
+	} else {
+		// keeps the statement terminating when every case body is (as the select was)
+		clauses = append(clauses, &ast.CaseClause{Body: []ast.Stmt{&ast.ExprStmt{X: &ast.CallExpr{Fun: ast.NewIdent("panic"),
+			Args: []ast.Expr{&ast.BasicLit{Kind: token.STRING, Value: `"bbsim: select rewrite: no case chosen"`}}}}}})
 	}
 	stmts = append(stmts, &ast.SwitchStmt{Tag: idx, Body: &ast.BlockStmt{List: clauses}})
 	return &ast.BlockStmt{List: stmts}
